@@ -39,7 +39,7 @@ func c13Tier(tier string) c13Params {
 		// the quick tier with the largest input of the thorough tier (used when trying seeded changes)
 		return c13Params{repoFlagSets: 1, deep: 2, uclass: 2, lrrec: 2, placement: 4, big: []int{1<<20 + 4096}, manyerrs: 2, gen: 10, genFree: 4, mut: 10, bytes: 4, faultsPer: 4, sessionLen: 24, realBinary: 2}
 	}
-	return c13Params{repoFlagSets: 1, deep: 12, uclass: 16, lrrec: 12, placement: placementCount, big: []int{70 << 10}, manyerrs: 8, gen: 70, genFree: 40, mut: 170, bytes: 30, faultsPer: 4, sessionLen: 24, realBinary: 12}
+	return c13Params{repoFlagSets: 1, deep: 12, uclass: 16, lrrec: 15, placement: placementCount, big: []int{70 << 10}, manyerrs: 8, gen: 70, genFree: 40, mut: 170, bytes: 30, faultsPer: 4, sessionLen: 24, realBinary: 12}
 }
 
 func c13Inputs(seed uint64, p c13Params, src string) []toolInput {
@@ -464,6 +464,7 @@ func runC13(tier string) int {
 	behaviours := map[string]bool{}
 	evaluations := 0
 	shortReads := 0
+	var bigRuns []string
 	for i := range ins {
 		evaluations++
 		kindCount["base"]++
@@ -496,6 +497,15 @@ func runC13(tier string) int {
 			behaviours[jb.v.kind+"|"+fmt.Sprint(o.Res.Runs[0].Exit)+"|"+firstLine(o.Res.Runs[0].StderrHead)] = true
 		}
 		bo := baseOut[jb.input]
+		if ins[jb.input].Class == "big" && (jb.v.kind == "twin" || jb.v.kind == "short") {
+			d := func(o outcome) string {
+				if o.Status != "ok" {
+					return o.Status
+				}
+				return fmt.Sprintf("exit %d after %d steps", o.Res.Runs[0].Exit, o.Res.Runs[0].Steps)
+			}
+			bigRuns = append(bigRuns, fmt.Sprintf("%s via_file=%v: base %s; %s %s", ins[jb.input].Name, deliv[jb.input].viaFile, d(bo), jb.v.kind, d(o)))
+		}
 		if cl, msg := c13Judge(ins[jb.input], jb.v.kind, &varJobs[j].v.c, o, &bo); cl != "" {
 			// a variant failing exactly like its base is one violation, reported once (by the base)
 			if bcl, _ := c13Judge(ins[jb.input], "base", &baseJobs[jb.input].v.c, bo, nil); bcl == cl {
@@ -570,6 +580,7 @@ func runC13(tier string) int {
 			"runs_by_variant":                      kindCount,
 			"faults_fired":                         faultFired,
 			"short_reads_delivered":                shortReads,
+			"big_inputs":                           bigRuns,
 			"real_binary_runs":                     realRuns,
 			"real_binary_vs_simulation_mismatches": realMismatch,
 			"runs_per_hour":                        perHour(evaluations, wall),
